@@ -36,7 +36,7 @@ count_putKey_le pow2_step_bounded capacity_pow2_reachable capacity_pow2_run
 struct_inv_of_check struct_rawget_spec struct_get_spec struct_get_depth_cutoff struct_proto_irrelevant struct_next_visits_each_key_once
 struct_to_table_spec to_struct_certified thaw_freeze_same_map table_rawget_ignores_proto
 struct_put_establishes_inv struct_begin_inv to_struct_spec struct_roundtrip_same_map with_proto_spec
-fromPuts_putsOf_spec thaw_flat_spec freeze_level_spec thaw_freeze_level_same_map
+fromPuts_putsOf_spec thaw_flat_spec freeze_level_spec thaw_freeze_level_same_map struct_end_spec struct_literal_spec
 """.split()
 ENV = dict(os.environ, ASAN_OPTIONS="detect_leaks=0:abort_on_error=0:allocator_may_return_null=1", UBSAN_OPTIONS="print_stacktrace=1")
 NT, NS, NA, NB = 4, 2, 3, 3
@@ -279,6 +279,19 @@ class Gen:
             return r.choice(["nil", "f1.5", "sabc", "f1e100", ":kw", "true"])
         return str(r.range(-5, 300))
 
+    def count_near_max(self, at, n):
+        """a count argument at the int32 boundary relative to the start index `at` of a sequence of length about n:
+        INT32_MAX - at (the largest count for which at + count still fits), one more, one less, INT32_MAX - n, INT32_MAX"""
+        r = self.r
+        try:
+            a = int(at)
+        except ValueError:
+            a = 0
+        if a < 0:
+            a += n
+        a = min(max(a, 0), n + 2)
+        return str(r.choice([I32MAX - a, I32MAX - a + 1, I32MAX - a - 1, I32MAX - n, I32MAX - n + 1, I32MAX, I32MAX - 1]))
+
     def array_history(self, nops):
         r = self.r
         ops = []
@@ -305,7 +318,8 @@ class Gen:
                 if r.chance(1, 2):
                     ops.append("aremove A%d %s" % (a, self.idx(n)))
                 else:
-                    ops.append("aremove A%d %s %s" % (a, self.idx(n), r.choice([str(r.range(0, n + 2)), self.idx(n), "0", "1", str(I32MAX - r.below(3))])))
+                    at = self.idx(n)
+                    ops.append("aremove A%d %s %s" % (a, at, r.choice([str(r.range(0, n + 2)), self.idx(n), "0", "1", str(I32MAX - r.below(3)), self.count_near_max(at, n)])))
                 lens[a] = max(0, n - 1)
             elif x < 580:
                 d = A()
@@ -389,7 +403,7 @@ class Gen:
             elif x < 350:
                 ops.append("bpushat B%d %s %s" % (b, self.idx(n), " ".join(barg() for _ in range(r.range(0, 3)))))
             elif x < 400:
-                ops.append("bpopn B%d %s" % (b, r.choice([str(r.range(0, n + 2)), self.idx(n)])))
+                ops.append("bpopn B%d %s" % (b, r.choice([str(r.range(0, n + 2)), self.idx(n), self.count_near_max("0", n)])))
                 lens[b] = max(0, n - 2)
             elif x < 440:
                 ops.append("bfill B%d %s" % (b, r.choice(["", str(r.range(0, 255)), "300", "-1", "nil", "f0.5"])))
